@@ -5,7 +5,7 @@ repo=${1:-/repo}
 export GOFLAGS=-mod=mod GOPROXY=off GOSUMDB=off GOTOOLCHAIN=local
 cd "$repo" && go build ./... || exit 1
 out=$(mktemp /tmp/bl-XXXXXX.json)
-go test -vet=off -count=1 -json ./... > "$out" 2>&1
+go test -vet=off -count=1 ${BASELINE_TIMEOUT:+-timeout=$BASELINE_TIMEOUT} -json ./... > "$out" 2>&1
 python3 - "$out" <<'PY'
 import json,sys
 base=json.load(open('/root/.vp/BASELINE.json'))
